@@ -24,12 +24,11 @@ from vf.runner import Violation
 
 EPS = np.finfo(float).eps
 # Admissibility slack: the projections are clamps / analytic cone formulas, so violations should be at rounding level.
-# Worst observed over seeds 1-5 x 1500 cases: bound rows 0 (exact), elliptic cone 3e-16 relative.
+# Worst observed (quick seeds 1-3 + thorough seeds 1,2; ~20000 cases x 8 variants): bound rows 0 (exact), elliptic cone 2.2e-13.
 REL = 1e-9
-K_QFRC = 1e3     # qfrc_constraint vs J'f in eps units of |J|'|f|: worst observed ~4
-K_DEC = 1e3      # mj_contactForce vs decode in eps units: worst observed ~2
-K_PHYS = 1e4     # S'w vs J_c'f_c in eps units of |S|'|w| + |J_c|'|f_c|: worst observed ~30
-
+K_QFRC = 1e3     # qfrc_constraint vs J'f in eps units of |J|'|f|: worst observed 2.1
+K_DEC = 1e3      # mj_contactForce vs decode in eps units: worst observed 0.99
+K_PHYS = 1e4     # S'w vs J_c'f_c in eps units of (|frame| (|jac2|+|jac1|))'|w| + |J_c|'|f_c|: worst observed 1.1
 
 def contact_jac(lib, m, d, c, nv):
   """6 x nv Jacobian of the relative spatial velocity (body of geom[1] minus body of geom[0]) at the contact point,
